@@ -54,8 +54,12 @@ pub struct Plan {
     /// After creating its k-th thread the creating thread sleeps this many microseconds (it is
     /// descheduled right after clone), so the new thread gets to run first.
     pub linger: Vec<u32>,
+    /// Exec tier only: the resident set size (KiB) that /proc/self/status and /proc/self/statm
+    /// report to the process. Memory statistics belong to the machine, not to the input file.
+    pub rss_kib: u64,
 }
 
+pub const REF_RSS_KIB: u64 = 8192;
 pub const REF_CLOCK_BASE: u64 = 1_700_000_000;
 pub const REF_CLOCK_STEP_NS: u64 = 1_000_000;
 pub const REF_PID: u32 = 4242;
@@ -77,11 +81,15 @@ impl Plan {
             repeat: 0,
             stall: vec![],
             linger: vec![],
+            rss_kib: REF_RSS_KIB,
         }
     }
 
     pub fn has_identity_fault(&self) -> bool {
-        self.clock_base != REF_CLOCK_BASE || self.clock_step_ns != REF_CLOCK_STEP_NS || self.pid != REF_PID
+        self.clock_base != REF_CLOCK_BASE
+            || self.clock_step_ns != REF_CLOCK_STEP_NS
+            || self.pid != REF_PID
+            || self.rss_kib != REF_RSS_KIB
     }
 
     pub fn key_hex(&self) -> String {
@@ -112,6 +120,7 @@ impl Plan {
             "repeat": self.repeat,
             "stall": self.stall,
             "linger": self.linger,
+            "rss_kib": self.rss_kib,
         })
     }
 
@@ -139,6 +148,7 @@ impl Plan {
             repeat: v.get("repeat").and_then(Value::as_u64).unwrap_or(0) as u32,
             stall: list_u32(v.get("stall")),
             linger: list_u32(v.get("linger")),
+            rss_kib: v.get("rss_kib").and_then(Value::as_u64).unwrap_or(REF_RSS_KIB),
         })
     }
 }
